@@ -270,6 +270,21 @@ impl NodeCtx {
             "metrics" => self.metrics().await,
             "barrier" => self.barrier(op["min_index"].as_u64().unwrap_or(0), op["bound_ms"].as_u64().unwrap_or(15000)).await,
             "dump" => self.dump(op).await?,
+            "serde_probe" => {
+                // the leader applies the in-memory request; followers and the start-up replay apply what the log / the wire carry (serde_json).
+                // A request that does not survive that encoding unchanged is applied differently on the three paths.
+                let req: ClientRequest = serde_json::from_value(op["req"].clone())?;
+                let wire = serde_json::to_string(&req)?;
+                let back: ClientRequest = serde_json::from_str(&wire)?;
+                let (a, b) = (format!("{:?}", req), format!("{:?}", back));
+                if a == b {
+                    json!({"same": true})
+                } else {
+                    let n = a.bytes().zip(b.bytes()).take_while(|(x, y)| x == y).count();
+                    json!({"same": false, "in_memory": a.chars().skip(n.saturating_sub(60)).take(160).collect::<String>(),
+                           "after_encoding": b.chars().skip(n.saturating_sub(60)).take(160).collect::<String>()})
+                }
+            }
             "raft_meta" => {
                 // what the raft store serves for membership and node addresses (RaftStorage::get_membership_config / get_target_addr read the same record)
                 use rnacos::raft::filestore::raftindex::{RaftIndexRequest, RaftIndexResponse};
